@@ -87,6 +87,7 @@ func main() {
 				continue
 			}
 			ct := e.specs.contracts[fnKey(fn)]
+			e.useTypeInv = *safety
 			vc := e.verifyFunc(fn, ct, sl, *safety, nil)
 			tally := &Tally{BySolver: map[string]int{}}
 			vc.discharge(SolveOpts{Dir: *dir, Timeouts: []int{*to}, Parallel: 16, KeepAll: *keep}, tally)
